@@ -20,14 +20,6 @@ Proof.
   - cbn. now rewrite IH.
 Qed.
 
-Lemma xor_at_len s off d : length (xor_at s off d) = length s.
-Proof.
-  revert off d; induction s as [|x s IH]; intros off d; [reflexivity|].
-  destruct off as [|o]; cbn [xor_at].
-  - destruct d as [|y d]; [reflexivity|]. cbn. now rewrite IH.
-  - cbn. now rewrite IH.
-Qed.
-
 Lemma set_at_app_r a b d : set_at (a ++ b) (length a) d = a ++ set_at b 0 d.
 Proof.
   induction a as [|x a IH]; [reflexivity|]. cbn [app length set_at]. now rewrite IH.
